@@ -603,7 +603,8 @@ class Executor:
         if k == "discr":
             v = self.read_place(store, fid, rv[1])
             if isinstance(v, EnumV):
-                return IntV("isize", v.discr)
+                # rustc's discriminant type: i8 for core::cmp::Ordering (-1, 0, 1), isize for the default repr
+                return IntV("i8" if v.name == "Ordering" else "isize", v.discr)
             raise Unsupported("discriminant of %s" % type(v).__name__)
         if k == "len":
             v = self.read_place(store, fid, rv[1])
@@ -864,6 +865,12 @@ class Executor:
                     if isinstance(v, BoolV):
                         c = b_not(v.t) if val == 0 else (v.t if val == 1 else False)
                     elif isinstance(v, IntV):
+                        # switch values are printed as the unsigned bit pattern: 255 is -1_i8
+                        lo_t, hi_t = ty_range(v.ty)
+                        if val > hi_t and lo_t < 0:
+                            val -= 1 << INT_TYPES[v.ty][1]
+                        if not (lo_t <= val <= hi_t):
+                            raise Unsupported("switchInt value %d outside %s" % (val, v.ty))
                         c = i_eq(v.t, val)
                     else:
                         raise Unsupported("switchInt on %r" % type(v).__name__)
